@@ -213,14 +213,23 @@ def r4_format(ctx):
         ok = len(fm) == 1 and path_of(fm[0].func.value) == path_of(lp.target) and not fm[0].args and not fm[0].keywords
         yield Ob('scripts.x12norm:main segments keep the source delimiters', ok, ctx.floc(fn, writes[0]),
                  '' if ok else 'written expression %s' % norm(a))
-        ok = isinstance(a, ast.BinOp) and isinstance(a.op, ast.Add) and path_of(a.right) == 'eol'
+        suffix = a.right if isinstance(a, ast.BinOp) and isinstance(a.op, ast.Add) else None
+        ok = suffix is not None and any(x is fm[0] for x in ast.walk(a.left)) if fm else False
         yield Ob('scripts.x12norm:main appends eol', ok, ctx.floc(fn, writes[0]), '' if ok else 'written expression %s' % norm(a))
-    eol = [n for n in ast.walk(fn) if isinstance(n, ast.Assign) and path_of(n.targets[0]) == 'eol']
-    ok = False
-    if len(eol) == 1 and isinstance(eol[0].value, ast.IfExp):
-        v = eol[0].value
-        ok = A.const(v.body) == '\n' and A.const(v.orelse) == '' and norm(v.test) == 'args.eol'
-    yield Ob('scripts.x12norm:main eol is a line feed when asked, else empty', ok, ctx.floc(fn), '' if ok else 'eol assignment changed')
+        # what is appended: a line feed when -e was given, nothing otherwise (held in a local or computed in place)
+        vals = None
+        if suffix is not None:
+            e = suffix
+            if isinstance(e, ast.Name):
+                defs = [n.value for n in ast.walk(fn) if isinstance(n, ast.Assign) and path_of(n.targets[0]) == e.id]
+                e = defs[0] if len(defs) == 1 else None
+            if e is not None:
+                try:
+                    vals = [A.ev(e, {'args.eol': True}), A.ev(e, {'args.eol': False})]
+                except A.NotClosed:
+                    vals = None
+        ok = vals == ['\n', '']
+        yield Ob('scripts.x12norm:main eol is a line feed when asked, else empty', ok, ctx.floc(fn), '' if ok else 'suffix evaluates to %r for -e / no -e' % (vals,))
 
 
 def r3b_reader_counters(ctx):
